@@ -75,15 +75,15 @@ pub(crate) closed spec fn slot_defined(m: Option<ModKind>, al: &RefCell<HashMap<
 }
 
 // ---------------- length: run of identical segments starting at pos
-pub(crate) closed spec fn run_from(s: Seq<Segment>, pos: int, i: int) -> int
+pub closed spec fn run_from(s: Seq<Segment>, pos: int, i: int) -> int
     decreases s.len() - i
 {
     if 0 <= pos < s.len() && pos < i < s.len() && s[i] == s[pos] { 1 + run_from(s, pos, i + 1) } else { 0 }
 }
-pub(crate) closed spec fn run_len(s: Seq<Segment>, pos: int) -> int { 1 + run_from(s, pos, pos + 1) }
+pub closed spec fn run_len(s: Seq<Segment>, pos: int) -> int { 1 + run_from(s, pos, pos + 1) }
 
 /// the syllable with the run at `pos` resized to `m` copies
-pub(crate) closed spec fn resized(s: Seq<Segment>, pos: int, m: int) -> Seq<Segment> {
+pub closed spec fn resized(s: Seq<Segment>, pos: int, m: int) -> Seq<Segment> {
     s.subrange(0, pos) + Seq::new(m as nat, |i: int| s[pos]) + s.subrange(pos + run_len(s, pos), s.len() as int)
 }
 
@@ -229,8 +229,9 @@ fn witness_supras(sy: &mut Syllable, alphas: &RefCell<HashMap<char, Alpha>>, p: 
 //@ contract Syllable::apply_supras ret=r
     requires
         /*#apply_supras.in_bounds C02,C05*/ pos < old(self).segments@.len(),
-        /*#apply_supras.run_fits_i8 C02*/ run_len(old(self).segments@, pos as int) <= 128,
-        old(self).segments@.len() + 3 < usize::MAX,
+        // Rust collections never hold more than isize::MAX elements (allocation limit); with the
+        // length-change counter an isize this makes every `len_change += / -= 1` overflow-free.
+        /*#apply_supras.std_len_limit C02*/ old(self).segments@.len() + 3 <= isize::MAX,
     ensures
         /*#apply_supras.length_table C05*/ r matches Ok(lc) ==> (
             len_target(tv(mods.length[0], alphas), tv(mods.length[1], alphas), run_len(old(self).segments@, pos as int)) matches Some(t)
